@@ -265,6 +265,11 @@ func ruleOnePerStep(p *core.Program) []core.Obligation {
 				return 0, false
 			}
 			d := depthOf(at.Parent(), at.Block()) + up
+			if _, isGo := at.(*ssa.Go); isGo {
+				// a goroutine started per operand (go c.mergeNext(...) in a loop over the operands) is its own
+				// activation, like the closure it may have been before: the spawning loop is not a loop over steps
+				d = 0
+			}
 			if first {
 				res, first = d, false
 			} else if d != res {
@@ -733,22 +738,27 @@ func rulePointFields(p *core.Program) []core.Obligation {
 		return []core.Obligation{core.Ob(rule, "functionOperator.Next", "-", "", core.Lost, "not found")}
 	}
 	stored := map[string]bool{}
-	core.EachInstr(site, func(b *ssa.BasicBlock, i int, ins ssa.Instruction) {
-		st, ok := ins.(*ssa.Store)
-		if !ok {
-			return
-		}
-		n, f, base, ok := core.FieldRef(st.Addr)
-		if !ok || n == nil || n.Obj().Name() != "Point" {
-			return
-		}
-		// base is an element of o.pointBuf
-		if ia, ok := base.(*ssa.IndexAddr); ok {
-			if l := core.Deref(ia.X); l != nil && core.IsFieldOf(l, modFunction, "functionOperator", "pointBuf") {
-				stored[f] = true
+	// Next and the methods of the operator it delegates to (the loop body may live in a helper)
+	for sf := range syncReach(p, site, func(_ *ssa.Function, _ ssa.Instruction, callee *ssa.Function) bool {
+		return recvNamed(callee) == recvNamed(site)
+	}) {
+		core.EachInstr(sf, func(b *ssa.BasicBlock, i int, ins ssa.Instruction) {
+			st, ok := ins.(*ssa.Store)
+			if !ok {
+				return
 			}
-		}
-	})
+			n, f, base, ok := core.FieldRef(st.Addr)
+			if !ok || n == nil || n.Obj().Name() != "Point" {
+				return
+			}
+			// base is an element of o.pointBuf
+			if ia, ok := base.(*ssa.IndexAddr); ok {
+				if l := core.Deref(ia.X); l != nil && core.IsFieldOf(l, modFunction, "functionOperator", "pointBuf") {
+					stored[f] = true
+				}
+			}
+		})
+	}
 	ks := kernels(p)
 	var names []string
 	for n := range ks {
@@ -1261,144 +1271,169 @@ func rulePutOrder(p *core.Program) []core.Obligation {
 func ruleResultShape(p *core.Program) []core.Obligation {
 	const rule = "R-RESULTSHAPE"
 	var obs []core.Obligation
-	fn := p.Func("engine", "compatibilityQuery.Exec")
-	if fn == nil {
+	exec := p.Func("engine", "compatibilityQuery.Exec")
+	if exec == nil {
 		return []core.Obligation{core.Ob(rule, "Exec", "-", "", core.Lost, "not found")}
 	}
-	// 1. the store of a promql.Matrix into ret.Value is dominated by sort.Sort on that matrix
-	var matrixStores, sorts []ssa.Instruction
-	var matrixAppends []*ssa.Call
-	core.EachInstr(fn, func(b *ssa.BasicBlock, i int, ins ssa.Instruction) {
-		switch x := ins.(type) {
-		case *ssa.Store:
-			if core.IsFieldOf(x.Addr, pkgPromql, "Result", "Value") {
-				isMatrix := false
-				core.BackSlice(x.Val, func(v ssa.Value) bool {
-					if mi, ok := v.(*ssa.MakeInterface); ok && core.TypeIs(mi.X.Type(), pkgPromql, "Matrix") {
-						// only the range path: the matrix built by make(promql.Matrix...) and appends
-						if _, conv := mi.X.(*ssa.ChangeType); !conv {
-							isMatrix = true
+	// Exec and the functions of package engine it calls (the result may be assembled in helpers)
+	var fns []*ssa.Function
+	for f := range syncReach(p, exec, func(_ *ssa.Function, _ ssa.Instruction, callee *ssa.Function) bool {
+		return callee.Pkg == exec.Pkg
+	}) {
+		fns = append(fns, f)
+	}
+	sort.Slice(fns, func(a, b int) bool { return fns[a].String() < fns[b].String() })
+	isMatrixT := func(t types.Type) bool { return core.TypeIs(t, pkgPromql, "Matrix") }
+	// 1. wherever a freshly built promql.Matrix leaves the function that builds it (stored into Result.Value, or
+	//    returned by a helper), sort.Sort on it dominates that exit
+	nExits := 0
+	for _, fn := range fns {
+		var sorts []ssa.Instruction
+		var appends []*ssa.Call
+		core.EachInstr(fn, func(b *ssa.BasicBlock, i int, ins ssa.Instruction) {
+			if c, ok := ins.(*ssa.Call); ok {
+				if core.IsStatic(&c.Call, "sort.Sort") {
+					sorts = append(sorts, c)
+				}
+				if bi, ok := c.Call.Value.(*ssa.Builtin); ok && bi.Name() == "append" && isMatrixT(c.Type()) {
+					appends = append(appends, c)
+				}
+			}
+		})
+		builtHere := len(appends) > 0
+		core.EachInstr(fn, func(b *ssa.BasicBlock, i int, ins ssa.Instruction) {
+			var exit ssa.Instruction
+			switch x := ins.(type) {
+			case *ssa.Store:
+				if core.IsFieldOf(x.Addr, pkgPromql, "Result", "Value") {
+					core.BackSlice(x.Val, func(v ssa.Value) bool {
+						if mi, ok := v.(*ssa.MakeInterface); ok && isMatrixT(mi.X.Type()) {
+							if _, conv := mi.X.(*ssa.ChangeType); !conv {
+								if _, isCall := mi.X.(*ssa.Call); !isCall || builtHere {
+									exit = x
+								}
+							}
 						}
+						return true
+					})
+				}
+			case *ssa.Return:
+				if fn != exec && builtHere {
+					for _, r := range core.RetResults(x) {
+						if isMatrixT(r.Type()) {
+							exit = x
+						}
+						if mi, ok := r.(*ssa.MakeInterface); ok && isMatrixT(mi.X.Type()) {
+							exit = x
+						}
+					}
+				}
+			}
+			if exit == nil || !builtHere {
+				return
+			}
+			nExits++
+			dom := false
+			for _, sc := range sorts {
+				if core.InstrDominates(sc, exit) {
+					dom = true
+				}
+			}
+			if dom {
+				obs = append(obs, core.Ob(rule, "range result is sorted", p.Pos(exit.Pos()), core.FuncName(fn), core.Held, "sort.Sort dominates the point where the matrix leaves "+core.FuncName(fn)))
+			} else {
+				obs = append(obs, core.Ob(rule, "range result is sorted", p.Pos(exit.Pos()), core.FuncName(fn), core.Violated, "the matrix is returned without sort.Sort: series order depends on shard scheduling"))
+			}
+		})
+		// 2. series appended to the result matrix are non-empty: dominated by the non-empty branch of len(s.Points)
+		for _, ap := range appends {
+			guard := false
+			for _, b := range fn.Blocks {
+				iff := core.IfOf(b)
+				if iff == nil {
+					continue
+				}
+				bo, ok := iff.Cond.(*ssa.BinOp)
+				if !ok {
+					continue
+				}
+				lc, ok := bo.X.(*ssa.Call)
+				if !ok {
+					continue
+				}
+				bi, ok := lc.Call.Value.(*ssa.Builtin)
+				if !ok || bi.Name() != "len" {
+					continue
+				}
+				isPoints := false
+				core.BackSlice(lc.Call.Args[0], func(v ssa.Value) bool {
+					if _, f, _, ok := core.FieldRef(v); ok && f == "Points" {
+						isPoints = true
 					}
 					return true
 				})
-				if isMatrix {
-					matrixStores = append(matrixStores, x)
+				c, okc := core.ConstInt(bo.Y)
+				if !isPoints || !okc || c != 0 {
+					continue
+				}
+				succ := -1
+				switch bo.Op {
+				case token.EQL:
+					succ = 1
+				case token.NEQ, token.GTR:
+					succ = 0
+				}
+				if succ >= 0 && core.BranchDominates(b, succ, ap.Block()) {
+					guard = true
 				}
 			}
-		case *ssa.Call:
-			if core.IsStatic(&x.Call, "sort.Sort") {
-				sorts = append(sorts, x)
-			}
-			if bi, ok := x.Call.Value.(*ssa.Builtin); ok && bi.Name() == "append" && core.TypeIs(x.Type(), pkgPromql, "Matrix") {
-				matrixAppends = append(matrixAppends, x)
+			if guard {
+				obs = append(obs, core.Ob(rule, "range result keeps non-empty series only", p.Pos(ap.Pos()), core.FuncName(fn), core.Held, "append is behind len(Points) != 0"))
+			} else {
+				obs = append(obs, core.Ob(rule, "range result keeps non-empty series only", p.Pos(ap.Pos()), core.FuncName(fn), core.Violated, "series without points can be appended to the result matrix"))
 			}
 		}
-	})
-	if len(matrixStores) == 0 {
-		obs = append(obs, core.Ob(rule, "range result is sorted", "-", core.FuncName(fn), core.Lost, "no store of a promql.Matrix into Result.Value found"))
-	}
-	for _, st := range matrixStores {
-		ok := false
-		for _, s := range sorts {
-			if core.InstrDominates(s, st) {
-				ok = true
-			}
-		}
-		if ok {
-			obs = append(obs, core.Ob(rule, "range result is sorted", p.Pos(st.Pos()), core.FuncName(fn), core.Held, "sort.Sort dominates the store of the matrix into the result"))
-		} else {
-			obs = append(obs, core.Ob(rule, "range result is sorted", p.Pos(st.Pos()), core.FuncName(fn), core.Violated, "the matrix is returned without sort.Sort: series order depends on shard scheduling"))
-		}
-	}
-	// 2. series appended to the result matrix are non-empty: dominated by the false branch of len(s.Points) == 0
-	if len(matrixAppends) == 0 {
-		obs = append(obs, core.Ob(rule, "range result keeps non-empty series only", "-", core.FuncName(fn), core.Lost, "no append to a promql.Matrix found"))
-	}
-	for _, ap := range matrixAppends {
-		guard := false
-		for _, b := range fn.Blocks {
-			iff := core.IfOf(b)
-			if iff == nil {
-				continue
-			}
-			bo, ok := iff.Cond.(*ssa.BinOp)
+		// 3. instant samples and scalars are stamped with q.ts
+		core.EachInstr(fn, func(b *ssa.BasicBlock, i int, ins ssa.Instruction) {
+			st, ok := ins.(*ssa.Store)
 			if !ok {
-				continue
+				return
 			}
-			lc, ok := bo.X.(*ssa.Call)
-			if !ok {
-				continue
+			n, f, base, ok := core.FieldRef(st.Addr)
+			if !ok || n == nil || f != "T" {
+				return
 			}
-			bi, ok := lc.Call.Value.(*ssa.Builtin)
-			if !ok || bi.Name() != "len" {
-				continue
+			var what string
+			switch {
+			case n.Obj().Name() == "Scalar" && n.Obj().Pkg().Path() == pkgPromql:
+				what = "promql.Scalar"
+			case n.Obj().Name() == "Point" && n.Obj().Pkg().Path() == pkgPromql:
+				// only points embedded in a promql.Sample
+				if _, pf, _, ok := core.FieldRef(base); ok && pf == "Point" {
+					what = "promql.Sample"
+				}
 			}
-			isPoints := false
-			core.BackSlice(lc.Call.Args[0], func(v ssa.Value) bool {
-				if _, f, _, ok := core.FieldRef(v); ok && f == "Points" {
-					isPoints = true
+			if what == "" {
+				return
+			}
+			fromTs := false
+			core.BackSlice(st.Val, func(v ssa.Value) bool {
+				if core.IsFieldOf(v, modEngine, "compatibilityQuery", "ts") {
+					fromTs = true
 				}
 				return true
 			})
-			c, okc := core.ConstInt(bo.Y)
-			if !isPoints || !okc || c != 0 {
-				continue
+			key := "instant " + what + " stamped with the evaluation time"
+			if fromTs {
+				obs = append(obs, core.Ob(rule, key, p.Pos(st.Pos()), core.FuncName(fn), core.Held, "T is computed from q.ts"))
+			} else {
+				obs = append(obs, core.Ob(rule, key, p.Pos(st.Pos()), core.FuncName(fn), core.Violated, "T does not come from the query's evaluation time"))
 			}
-			succ := -1
-			switch bo.Op {
-			case token.EQL:
-				succ = 1
-			case token.NEQ, token.GTR:
-				succ = 0
-			}
-			if succ >= 0 && core.BranchDominates(b, succ, ap.Block()) {
-				guard = true
-			}
-		}
-		if guard {
-			obs = append(obs, core.Ob(rule, "range result keeps non-empty series only", p.Pos(ap.Pos()), core.FuncName(fn), core.Held, "append is behind len(Points) != 0"))
-		} else {
-			obs = append(obs, core.Ob(rule, "range result keeps non-empty series only", p.Pos(ap.Pos()), core.FuncName(fn), core.Violated, "series without points can be appended to the result matrix"))
-		}
-	}
-	// 3. instant samples and scalars are stamped with q.ts
-	core.EachInstr(fn, func(b *ssa.BasicBlock, i int, ins ssa.Instruction) {
-		st, ok := ins.(*ssa.Store)
-		if !ok {
-			return
-		}
-		n, f, base, ok := core.FieldRef(st.Addr)
-		if !ok || n == nil || f != "T" {
-			return
-		}
-		var what string
-		switch {
-		case n.Obj().Name() == "Scalar" && n.Obj().Pkg().Path() == pkgPromql:
-			what = "promql.Scalar"
-		case n.Obj().Name() == "Point" && n.Obj().Pkg().Path() == pkgPromql:
-			// only points embedded in a promql.Sample
-			if _, pf, _, ok := core.FieldRef(base); ok && pf == "Point" {
-				what = "promql.Sample"
-			}
-		}
-		if what == "" {
-			return
-		}
-		fromTs := false
-		core.BackSlice(st.Val, func(v ssa.Value) bool {
-			if core.IsFieldOf(v, modEngine, "compatibilityQuery", "ts") {
-				fromTs = true
-			}
-			return true
 		})
-		key := "instant " + what + " stamped with the evaluation time"
-		if fromTs {
-			obs = append(obs, core.Ob(rule, key, p.Pos(st.Pos()), core.FuncName(fn), core.Held, "T is computed from q.ts"))
-		} else {
-			obs = append(obs, core.Ob(rule, key, p.Pos(st.Pos()), core.FuncName(fn), core.Violated, "T does not come from the query's evaluation time"))
-		}
-	})
+	}
+	if nExits == 0 {
+		obs = append(obs, core.Ob(rule, "range result is sorted", "-", core.FuncName(exec), core.Lost, "no place found where a freshly built promql.Matrix becomes the result"))
+	}
 	return obs
 }
 
